@@ -232,6 +232,7 @@ class PList:
         self.uid = next(_uid)
         self.name = "l"
         self.frozen = False
+        self.proto = None
 
     @staticmethod
     def fresh(kinds, n=None, name="l", tup=None):
@@ -265,7 +266,7 @@ class PList:
     def get(self, i):
         iz = to_z3(i, "int")
         vs = tuple(Sym(z3.Select(c, iz), k) for c, k in zip(self.cols, self.kinds))
-        proto = getattr(self, "proto", None)
+        proto = self.proto
         if proto is not None:
             vs = tuple(Opaque(v.z, proto) for v in vs)
         return vs if self.tup else vs[0]
@@ -420,7 +421,7 @@ def snapshot(v, memo=None):
         c.uid = v.root().uid
     elif isinstance(v, PList):
         c = PList()
-        c.uid, c.name = v.uid, v.name
+        c.uid, c.name, c.proto = v.uid, v.name, v.proto
         memo[i] = c
         if v.items is not None:
             c.items = [snapshot(x, memo) for x in v.items]
